@@ -9,7 +9,8 @@
 (*        cs,cc,ca   topology / complete / allowed cpuset,                 *)
 (*        ns,nc,na   topology / complete / allowed nodeset,                *)
 (*        nodes      set of [os, cpus] (NUMA node objects),                *)
-(*        hooks      names of the binding hooks that exist,                *)
+(*        hooks      fields of hwloc_topology_get_support() that are 1:    *)
+(*                   the binding hooks that exist, the policies announced, *)
 (*        kallowed   CPUs the kernel lets this process run on,             *)
 (*        kmems      NUMA nodes the kernel lets this process allocate on], *)
 (*   st  the state before the call                                         *)
